@@ -40,6 +40,24 @@ def _norm(p, start=0, *more, **opts):
     return None
 
 
+class Grid(object):
+    """an argument that has a python method called like the function it is passed to"""
+    def __init__(self, n):
+        self.n = n
+
+    def refine(self, k):
+        return Grid(self.n * k)
+
+    def __repr__(self):
+        return 'Grid(%r)' % self.n
+
+    def __eq__(self, other):
+        return type(other) is type(self) and self.n == other.n
+
+    def __hash__(self):
+        return hash(self.n)
+
+
 def main_class_groups(detail=None):
     """keys of calls whose arguments are instances of a __main__ class, under the serialising keymaps and under picklemaps
     with serializer options (protocol, byref, recurse): 'main/<j>' -> [digest, ncalls] | rows"""
@@ -63,16 +81,28 @@ def main_class_groups(detail=None):
             except Exception:
                 pass
     calls = [((Point(3, 4),), {}), ((Point(3, 4), 1), {}), ((), {'p': Point(3, 4)}), ((Point(1, 2),), {'start': Point(0, 0)}),
-             ((Point(1, 2), 0, Point(5, 6)), {'w': Point(7, 8)}), (((1, 2, 3),), {}), ((Point,), {}), ((1,), {'start': Point}), (('text',), {'start': 'word'}), ((b'by', 2.5), {'w': 'x', 'v': None})]      # no functions: their repr holds an address
+             ((Point(1, 2), 0, Point(5, 6)), {'w': Point(7, 8)}), (((1, 2, 3),), {}), ((Point,), {}), ((1,), {'start': Point}), (('text',), {'start': 'word'}), ((b'by', 2.5), {'w': 'x', 'v': None}), (('caf\xe9',), {'start': '\u03c0'})]      # no functions: their repr holds an address
+    # functions whose (ignored) first argument has an attribute called like the function: klepto's "is this argument self?" test
+    # looks exactly there, and used to be made of assert statements (python -O strips them)
+    ns = {}
+    exec("def count(s, sub):\n    return 0\n\ndef refine(grid, n):\n    return 0\n", ns)
+    extra = [(ns['count'], ('s',), ('text', 't'), {}), (ns['count'], ('s',), ((1, 2, 1), 1), {}), (ns['refine'], ('grid',), (Grid(3), 2), {}),
+             (ns['refine'], (0,), (Grid(3), 2), {})]
     out = {}
     for j, (name, km) in enumerate(kms):
         if detail is not None and detail != j:
             continue
         h = hashlib.sha1()
         rows = []
-        for (a, k) in calls:
+        for item in calls + extra:
             try:
-                g = I._keygen(_norm, (), *a, **k)
+                if len(item) == 4:
+                    fn_, ign_, a_, k_ = item
+                    a, k = (fn_.__name__,) + tuple(a_), dict(k_, ignore=ign_)
+                    g = I._keygen(fn_, ign_, *a_, **k_)
+                else:
+                    a, k = item
+                    g = I._keygen(_norm, (), *a, **k)
                 r = repr(km(*g[0], **g[1]))
             except Exception as e:      # noqa
                 r = 'raises ' + e.__class__.__name__
